@@ -8,7 +8,7 @@ import (
 
 // Every generated function has these parameters; impure operands are calls of the functions declared
 // in Preamble (in differential programs they log their name and return values from a script).
-const Params = "a, b, c int, u, v uint, p, q float64, s, t string, k, l bool, xs []int, bs []byte, ms myStr, mi myInts, mm myMap, ma myArr, pa *myArr, w *wr, mf, mg myF, mc, mc2 myC, fa [2]myF, vv val, it *iter, pe *myE"
+const Params = "a, b, c int, u, v uint, p, q float64, s, t string, k, l bool, xs []int, bs []byte, ms myStr, mi myInts, mm myMap, ma myArr, pa *myArr, w *wr, mf, mg myF, mc, mc2 myC, fa [2]myF, vv val, it *iter, pe *myE, cx complex128"
 
 // Preamble for files that are only analysed (never run).
 const LintPreamble = `
@@ -112,6 +112,14 @@ type node struct {
 }
 
 func setG() { gxs = []int{1} }
+
+// named constants (untyped and typed): go/types sees their values, the syntactic rules see identifiers
+const cLim = 5
+const cLo, cHi = 2, 7
+const cOne = 1
+const cF = 2.5
+const cS = "ab"
+const cT int = 9
 `
 
 // Flavour of a generated expression: decides which hazards may occur together, so that a failing
@@ -212,7 +220,23 @@ func (g *G) IntLit(n int) string {
 
 func isFloatT(t string) bool { return t == "float" || t == "mfloat" }
 
+// ConstDecls: the named constants of the preambles and their values
+var ConstInts = map[string]int{"cLim": 5, "cLo": 2, "cHi": 7, "cOne": 1, "cT": 9}
+
 func (g *G) lit(t string, n int) ex {
+	if g.chance(9) {
+		// a named constant in the literal's place
+		switch t {
+		case "float", "mfloat":
+			return ex{[]string{"cF", "cLim", "cLo"}[g.pick(3)], 7}
+		case "string":
+			return ex{"cS", 7}
+		case "int":
+			return ex{[]string{"cLim", "cLo", "cHi", "cOne", "cT"}[g.pick(5)], 7}
+		case "uint":
+			return ex{[]string{"cLim", "cLo", "cHi", "cOne"}[g.pick(4)], 7}
+		}
+	}
 	switch t {
 	case "float", "mfloat":
 		switch g.pick(4) {
